@@ -60,6 +60,14 @@
 
 #define kNumberOfObjects	1024
 
+#ifdef MMD6_VERIF
+	/* Verification hook (off by default): a harness chooses the number of objects per slab so
+	   that small documents cross slab boundaries too. */
+	extern size_t mmd6_verif_pool_objects;
+	#undef kNumberOfObjects
+	#define kNumberOfObjects mmd6_verif_pool_objects
+#endif
+
 
 void pool_add_slab(pool * p) {
 	void * slab = malloc(p->object_size * kNumberOfObjects);
